@@ -125,7 +125,7 @@ def listWrite (s : MP) (i c : Nat) : Except Fault MP :=
   | none => .error .listNull
   | some h =>
     if s.blkLive = some h then
-      if i < s.blkData.size then .ok { s with blkData := s.blkData.set! i (some c) }
+      if i < s.blkData.size then .ok { s with blkData := s.blkData.setIfInBounds i (some c) }
       else .error (.listOob i)
     else .error .listStale
 
@@ -285,7 +285,7 @@ def stepWith (al : Cfg → MP → Except Fault (MP × Addr)) (cfg : Cfg) (s : Sy
     | some a =>
       match free s.mp a with
       | .error e => .error e
-      | .ok mp => .ok { mp := mp, live := s.live.eraseIdx i, shadow := s.shadow }
+      | .ok mp => .ok { mp := mp, live := s.live.erase a, shadow := s.shadow }
   | .write i j v =>
     match s.live[i]? with
     | none => .ok s
